@@ -29,13 +29,16 @@ Theorem C04_finalizer_held_until_done :
 Proof. exact C04_finalizer_held_until_done. Qed.
 Print Assumptions C04_finalizer_held_until_done.
 
-(** Shape of every deletion pass: finalizer removal and Archived=True only after the teardown reported
-    all phases done; otherwise Archived (if sent) is False; no Available condition is ever sent. *)
+(** Shape of every deletion pass: the member requests are those of the teardown of the phase list in reverse
+    order (local phases through the phase reconciler, delegated phases by deleting their phase object);
+    finalizer removal and Archived=True only after the teardown reported all phases done; otherwise Archived (if
+    sent) is False; no Available condition is ever sent. (Restated for [teardown_of] over mixed phase lists.) *)
 Theorem C04_deletion_pass_shape :
   forall force sw mem sw' evs r,
     deletion_pass force sw mem = (sw', evs, r) ->
-    exists w1 tevs td,
-      teardown_of force sw mem = (w1, tevs, td) /\ member_evs evs = tevs /\ w_store (sw_w sw') = w_store w1 /\
+    exists sw1 tevs td,
+      teardown_of force sw mem = (sw1, tevs, td) /\ member_evs evs = member_evs tevs /\
+      w_store (sw_w sw') = w_store (sw_w sw1) /\ sw_phases sw' = sw_phases sw1 /\
       (forall ok, In (SMeta (MFinalizer false ok)) evs -> td = TdOk true /\ os_fin mem = true) /\
       (forall rev0 conds ctrlof rem fph ok, In (SMeta (MStatus rev0 conds ctrlof rem fph ok)) evs ->
          find_cond conds CAvailable = None /\ fph = None /\ os_life mem = LArchived /\
@@ -54,3 +57,13 @@ Theorem C04_teardown_loop_order :
       forall q p, In q pre -> In p (ph_objects q) -> td_obj_done w' ow p.
 Proof. exact tp_order. Qed.
 Print Assumptions C04_teardown_loop_order.
+
+(** The phase-level monitor (coq/corr/PhaseMonitors.v m04p: "reported cleaned up => nothing listed is still
+    controlled") accepts every teardown of the model, for the ObjectSet controllers' flavour, quiet third parties
+    and distinct entries. *)
+From PKOCorr Require Import PhaseCorr PhaseMonitors C05Sound PhaseMonSound.
+Theorem C04_phase_monitor_sound :
+  forall c : pcase, pc_flavor c = FObjectSet -> Util.is_nil (pc_between c) = true ->
+    NoDup (map (desired_key (pc_owner c)) (pc_objects c)) -> m04p (set_obs c (model_run c)) = true.
+Proof. exact m04p_objectset_sound. Qed.
+Print Assumptions C04_phase_monitor_sound.
